@@ -177,6 +177,10 @@ def run(ctx, rec):
             mpairs.append((d, same))
             eps = Decimal(1).scaleb(-19)
             mpairs.append((d, same + eps.scaleb(max(shift, 0))))
+            # near ties INSIDE the tolerance (1e-21 of either operand's unit): whatever the verdict, the six operators must agree
+            mpairs.append((d + Decimal("1E-21"), same))
+            mpairs.append((d, same + Decimal("1E-21")))
+            mpairs.append((d - Decimal("4E-21"), same))
         # (ii) fixed adversarial mantissas
         pool = [(x, y) for x in fixed for y in fixed]
         mpairs += rng.sample(pool, per_pair)
